@@ -20,6 +20,7 @@ import (
 	"path/filepath"
 	"regexp"
 	"sort"
+	"strconv"
 	"strings"
 	"time"
 
@@ -70,7 +71,7 @@ func c09FaultKind(r c09Result) string {
 		// reader's PartialPanic) becomes an ordinary `error` condition at the next function boundary:
 		// counted in the outcome histogram, not a fault
 		return ""
-	case "H", "M":
+	case "H", "M", "K": // K: a listed unbounded cell that the quick tier does not run
 		return "unbounded"
 	case "S":
 		return "unit-abandoned"
@@ -101,6 +102,8 @@ func (r c09Result) Summary() string {
 		return "condition " + r.Class + ": " + c09Clip(r.Text, 200)
 	case "P":
 		return "foreign Go panic reached the top level (" + r.Class + "): " + c09Clip(r.Text, 200)
+	case "K":
+		return "not run in the quick tier: listed as unbounded (runs until the deadline / memory cap)"
 	case "H":
 		return "no result within the deadline (worker killed)"
 	case "M":
@@ -156,11 +159,16 @@ func (r *c09Run) explore(units [][]c09Case, progress func(i int, res []c09Result
 	type ref struct{ u, k int }
 	var faults []ref
 	listed := map[ref]bool{}
-	accepted := 0
+	accepted, skipped := 0, 0
 	for u := range res {
 		obs[u] = make([]c09Obs, len(res[u]))
 		for k, rs := range res[u] {
 			obs[u][k].Res = rs
+			if rs.Status == "K" {
+				obs[u][k].Kind, obs[u][k].How = "unbounded", "isolated"
+				skipped++
+				continue
+			}
 			if kind := c09FaultKind(rs); kind != "" {
 				// quick tier: a first-pass fault whose signature is a listed finding is taken as that
 				// finding without confirmation (confirmation exists to keep load and interpreter
@@ -180,6 +188,7 @@ func (r *c09Run) explore(units [][]c09Case, progress func(i int, res []c09Result
 		}
 	}
 	r.c.Ev.Count("faults_listed_unconfirmed", accepted)
+	r.c.Ev.Count("skipped_known_unbounded", skipped)
 	// bound the confirmation work for faults that are not listed: beyond 400 of them, or 24 deadline /
 	// memory kills, in one sweep the first-pass observation is taken as it is (how=unconfirmed) — a
 	// run with that many new faults is a violation whatever the rest turns out to be
@@ -380,6 +389,7 @@ type c09Run struct {
 	// first case text and observation per reported signature (findings candidate file)
 	firstCase map[string][2]string
 	sigOrder  []string
+	cellsOf   map[string][]string
 	// evaluations / non-trivial cases (table cases are distinct by construction; seeded duplicates
 	// are possible and counted — a dedup map over millions of case texts is not worth its memory)
 	evals, nontrivial int
@@ -413,6 +423,8 @@ func (r *c09Run) countCase(nontrivial bool) {
 func runC09(c *lib.Ctx) {
 	r := &c09Run{c: c, eng: c09NewEngine(c)}
 	defer os.RemoveAll(c09JailBase(c.Root))
+	r.eng.Expected = c09ExpectedCells(filepath.Join(c.Root, "findings", "C09.json"))
+	r.eng.SkipExpected = !c.Thorough() && c.Replay == ""
 	if c.Replay != "" {
 		r.replay()
 		return
@@ -544,10 +556,12 @@ func (r *c09Run) sweepBuiltins() {
 }
 
 // sweepTuples: 3+-tuples. A fixed table (every function that documents room for three arguments
-// x all triples over the reduced pool; thorough: third argument over the whole pool) and seeded
-// 3..5-tuples over the whole pool. Signature: function + fault kind (argc=3+); the table is
-// seed independent, so its failing (function, kind) pairs are the listed ones, and a seeded tuple
-// may only hit a listed pair.
+// x all triples over the reduced pool; thorough: one argument, in any position, over the whole
+// pool) and seeded
+// 3..5-tuples over the whole pool. Table cells have the signature of the pair sweep (function +
+// argument type tuple + fault kind): the table is seed independent, its failing cells are the
+// listed ones. A seeded tuple (any types, up to five arguments) may only fault in a function and
+// with a kind for which some cell is listed; it is then counted as a hit of that finding.
 func (r *c09Run) sweepTuples() {
 	c := r.c
 	var units [][]c09Case
@@ -562,20 +576,51 @@ func (r *c09Run) sweepTuples() {
 		}
 	}
 	perFn := c.Scale(40000, 500000) / len(r.fns)
+	if v, err := strconv.Atoi(os.Getenv("C09_TUPLES")); err == nil && v > 0 {
+		perFn = v / len(r.fns) // development aid: a larger seeded part to find cells worth promoting
+	}
 	for _, f := range r.fns {
 		var u []c09Case
 		var cl []c09Cell
 		var tb []bool
 		if f.Max < 0 || f.Max >= 3 {
+			seen := map[[3]int]bool{}
+			add3 := func(i, j, k int) {
+				if seen[[3]int{i, j, k}] {
+					return
+				}
+				seen[[3]int{i, j, k}] = true
+				u = append(u, c09Case{"E", f.Call(i, j, k)})
+				cl = append(cl, c09Cell{f, []int{i, j, k}})
+				tb = append(tb, true)
+				nTable++
+			}
 			for _, i := range c09Reduced {
 				for _, j := range c09Reduced {
 					for _, k := range third {
-						u = append(u, c09Case{"E", f.Call(i, j, k)})
-						cl = append(cl, c09Cell{f, []int{i, j, k}})
-						tb = append(tb, true)
-						nTable++
+						add3(i, j, k)
 					}
 				}
+			}
+			if c.Thorough() {
+				// … and the first and the second argument over the whole pool
+				for _, i := range c09Reduced {
+					for _, j := range c09Reduced {
+						for _, k := range third {
+							add3(i, k, j)
+							add3(k, i, j)
+						}
+					}
+				}
+			}
+		}
+		for _, pc := range c09Promoted {
+			if pc[0] == f.Key() {
+				idx := c09PoolIndex(pc[1:]...)
+				u = append(u, c09Case{"E", f.Call(idx...)})
+				cl = append(cl, c09Cell{f, idx})
+				tb = append(tb, true)
+				nTable++
 			}
 		}
 		for n := 0; n < perFn; n++ {
@@ -602,13 +647,41 @@ func (r *c09Run) sweepTuples() {
 		table = append(table, tb)
 	}
 	t0 := time.Now()
-	obs := r.explore(units, nil, func(u, k int, _ c09Result, kind string) string {
-		return r.knownHow(fmt.Sprintf("fn=%s argc=3+ kind=%s", cells[u][k].fn.Key(), kind))
+	// listed findings by (function, kind), for the seeded tuples
+	byFnKind := map[string]string{}
+	for _, f := range c.Findings.Findings {
+		if f.Property == "C09" && strings.HasPrefix(f.Signature, "fn=") {
+			w := strings.Fields(f.Signature)
+			if len(w) >= 3 && strings.HasPrefix(w[2], "kind=") {
+				key := w[0] + " " + w[2]
+				if old, has := byFnKind[key]; !has || f.Signature < old {
+					byFnKind[key] = f.Signature
+				}
+			}
+		}
+	}
+	sigOf := func(u, k int, kind, stage string) (string, bool) {
+		cl := cells[u][k]
+		if table[u][k] {
+			return cl.Sig(kind, stage), true
+		}
+		if s, has := byFnKind["fn="+cl.fn.Key()+" kind="+kind]; has {
+			return s, false
+		}
+		return cl.Sig(kind, stage), true
+	}
+	obs := r.explore(units, nil, func(u, k int, rs c09Result, kind string) string {
+		sig, own := sigOf(u, k, kind, rs.Stage)
+		if !own {
+			return "isolated"
+		}
+		return r.knownHow(sig)
 	})
 	c.Ev.Coverage["tuple_wall_s"] = time.Since(t0).Seconds()
 	c.Ev.Coverage["tuple_table_cases"] = nTable
 	c.Ev.Coverage["tuple_seeded_cases"] = nSeeded
 	var dump []string
+	hitByTable := map[string]string{}
 	for u := range obs {
 		for k, ob := range obs[u] {
 			cl := cells[u][k]
@@ -621,12 +694,22 @@ func (r *c09Run) sweepTuples() {
 			if ob.Kind == "" {
 				continue
 			}
-			sig := fmt.Sprintf("fn=%s argc=3+ kind=%s", cl.fn.Key(), ob.Kind)
-			if ob.How != "isolated" {
+			sig, own := sigOf(u, k, ob.Kind, ob.Res.Stage)
+			if own && ob.How != "isolated" {
 				sig += " how=" + ob.How
 			}
+			fk := "fn=" + cl.fn.Key() + " kind=" + ob.Kind
+			if table[u][k] {
+				if _, has := hitByTable[fk]; !has && ob.How == "isolated" {
+					hitByTable[fk] = sig
+				}
+			} else if s2, has := hitByTable[fk]; has {
+				// a seeded tuple: counted with a table cell of the same function and kind that failed
+				// in this very run
+				sig, own = s2, false
+			}
 			dump = append(dump, fmt.Sprintf("%s\t%v\t%s\t%s", sig, table[u][k], units[u][k].Text, ob.Res.Summary()))
-			r.report(sig, true, units[u][k].Text, "E", ob, "args="+c09Types(cl.idx...))
+			r.report(sig, table[u][k] || !own, units[u][k].Text, "E", ob, "args="+c09Types(cl.idx...))
 		}
 	}
 	sort.Strings(dump)
@@ -651,12 +734,20 @@ func c09IsArity(r c09Result) bool { return r.Arity }
 // report records a fault: listed signatures of sweep cells are known findings, everything else
 // is a violation. The first case seen per signature is kept for the findings candidate file.
 func (r *c09Run) report(sig string, sweep bool, text, kind string, ob c09Obs, note string) {
-	if _, seen := r.firstCase[sig]; !seen {
+	if !sweep {
+		// never listable: seeded cases are reported, not recorded in the candidate file
+	} else if _, seen := r.firstCase[sig]; !seen {
 		if r.firstCase == nil {
 			r.firstCase = map[string][2]string{}
 		}
 		r.firstCase[sig] = [2]string{text, ob.Res.Summary()}
 		r.sigOrder = append(r.sigOrder, sig)
+	}
+	if ob.Kind == "unbounded" && sweep && ob.How == "isolated" {
+		if r.cellsOf == nil {
+			r.cellsOf = map[string][]string{}
+		}
+		r.cellsOf[sig] = append(r.cellsOf[sig], text)
 	}
 	in := map[string]any{"kind": kind, "text": text, "how": ob.How, "with": ob.Prefix}
 	if kind == "R" {
@@ -683,6 +774,28 @@ func c09Merge(a, b map[string]any) map[string]any {
 	return a
 }
 
+// c09ExpectedCells: the case texts recorded (field "cells") with the listed findings of kind
+// unbounded.
+func c09ExpectedCells(path string) map[string]bool {
+	var doc struct {
+		Findings []struct {
+			Signature string   `json:"signature"`
+			Cells     []string `json:"cells"`
+		} `json:"findings"`
+	}
+	out := map[string]bool{}
+	if lib.ReadJSON(path, &doc) == nil {
+		for _, f := range doc.Findings {
+			if strings.Contains(f.Signature, " kind=unbounded") {
+				for _, t := range f.Cells {
+					out[t] = true
+				}
+			}
+		}
+	}
+	return out
+}
+
 // writeCandidates writes every signature reported in this run in the format of findings/C09.json
 // into the run directory (never into the committed findings file).
 func (r *c09Run) writeCandidates() {
@@ -692,6 +805,8 @@ func (r *c09Run) writeCandidates() {
 		WhatFails string `json:"what_fails"`
 		Replay    string `json:"replay"`
 		FirstSeen string `json:"first_seen"`
+		// every failing case text, recorded for kind=unbounded only: the quick tier does not run them
+		Cells []string `json:"cells,omitempty"`
 	}
 	sigs := append([]string{}, r.sigOrder...)
 	sort.Strings(sigs)
@@ -706,7 +821,7 @@ func (r *c09Run) writeCandidates() {
 		if i := strings.Index(obs, " | "); i > 0 {
 			obs = obs[:i]
 		}
-		out.Findings = append(out.Findings, fnd{"C09", sig, c09Clip(obs, 160), c09Clip(fc[0], 300), "round 1"})
+		out.Findings = append(out.Findings, fnd{"C09", sig, c09Clip(obs, 160), c09Clip(fc[0], 300), "round 1", r.cellsOf[sig]})
 	}
 	b, _ := json.MarshalIndent(out, "", " ")
 	_ = os.WriteFile(filepath.Join(r.c.OutDir, "findings-candidate.json"), b, 0o644)
@@ -1133,6 +1248,8 @@ func c09OutcomeBucket(r c09Result) string {
 		return "condition:" + r.Class
 	case "P":
 		return "foreign-panic"
+	case "K":
+		return "skipped-known-unbounded"
 	case "H":
 		return "deadline"
 	case "M":
